@@ -158,6 +158,13 @@ func (s *State) heapGet(v *Verifier, name, sort string) string {
 
 // closedFormula: heap closedness for a reference-valued heap variable: allocated objects refer to allocated objects or nil.
 func (v *Verifier) closedFormula(name, sym, alloc string, mdSym func(string) string) string {
+	if strings.HasPrefix(name, "MD_") {
+		// the nil map has no keys
+		hs := v.heapSorts[name]
+		_, inner := splitArraySort(hs)
+		ks, _ := splitArraySort(inner)
+		return "(forall ((k!z " + ks + ")) (not (select (select " + sym + " 0) k!z)))"
+	}
 	kind := v.heapIsRef[name]
 	if kind == "field" {
 		return "(forall ((r!c Int)) (=> (and (> r!c 0) (< r!c " + alloc + ")) (and (>= (select " + sym + " r!c) 0) (< (select " + sym + " r!c) " + alloc + "))))"
@@ -172,7 +179,7 @@ func (v *Verifier) closedFormula(name, sym, alloc string, mdSym func(string) str
 
 // closedAssume adds the (lazily included) closedness fact for a freshly havocked heap symbol.
 func (s *State) closedAssume(v *Verifier, name, sym string) {
-	if v.heapIsRef[name] == "" {
+	if v.heapIsRef[name] == "" && !strings.HasPrefix(name, "MD_") {
 		return
 	}
 	alloc := s.heapGet(v, "$alloc", sInt)
@@ -284,7 +291,7 @@ func (v *Verifier) initialHeapSym(name, sort string) string {
 	v.registerHeap(name, sort)
 	sym := smtIdent(name) + "_0"
 	v.decls.add("heap0:"+name, "(declare-const "+sym+" "+sort+")")
-	if _, done := v.lazyGlobal[sym]; !done && v.heapIsRef[name] != "" {
+	if _, done := v.lazyGlobal[sym]; !done && (v.heapIsRef[name] != "" || strings.HasPrefix(name, "MD_")) {
 		v.lazyGlobal[sym] = ""
 		v.lazyGlobal[sym] = v.closedFormula(name, sym, smtIdent("$alloc")+"_0", func(md string) string {
 			return v.initialHeapSym(md, v.heapSorts[md])
